@@ -237,7 +237,7 @@ func (g *FnGen) doCall(ci ssa.CallInstruction, v ssa.Value) {
 	// at-call assertions from the caller's contract
 	if g.C != nil && g.parent == nil {
 		for _, cs := range g.C.Calls {
-			if cs.Callee == name && (cs.K == 0 || cs.K == g.callOrd[ci]) {
+			if (cs.Callee == name || (name == "" && cs.Callee == "dynamic")) && (cs.K == 0 || cs.K == g.callOrd[ci]) {
 				for i, a := range cs.Assert {
 					ctx := &EvalCtx{g: g, env: g.mergeEnv(env), st: g.st, oldSt: g.entrySt, oldEnv: g.env, guard: guard}
 					g.obligeClause("assert", site+"/"+clauseLabel(a, i), guard, a, ctx, ci.Pos())
